@@ -3,6 +3,7 @@
   line per case.  Runs the *same* definitions the theorems are about.
 -/
 import TinyHttpModel.RespCase
+import TinyHttpModel.ConnCase
 
 open TH TH.Proto
 
@@ -15,6 +16,7 @@ def handle (line : String) : Option String :=
     match kv with
     | (kind, _) :: rest =>
       if kind == "resp" then some (RespCase.run rest)
+      else if kind == "conn" then some (ConnCase.run rest)
       else some ("res id=" ++ get rest "id" ++ " agree=0 diff=unknown-kind:" ++ kind)
     | [] => none
 
